@@ -6,6 +6,7 @@ package unitschk
 
 import (
 	"fmt"
+	"regexp"
 
 	"github.com/sarchlab/akita/v5/hooking"
 	"github.com/sarchlab/akita/v5/messaging"
@@ -137,3 +138,9 @@ func fillBytes(n int, seed uint64) []byte {
 	}
 	return b
 }
+
+var panicArgs = regexp.MustCompile(`\((0x[0-9a-f]+|\{|\.\.\.)[^()]*\)$`)
+
+// normSig removes the argument values kit.Guard leaves at the end of the
+// signature of a panic in a plain function (they contain pointers).
+func normSig(sig string) string { return panicArgs.ReplaceAllString(sig, "") }
